@@ -172,7 +172,7 @@ theorem recognise_complete_date_iso (ℓ : Locale) (curs : List (List Char)) (hc
   apply recognise_complete_date ℓ curs hc
   · refine ⟨sep, yT, mT, dT, dT, mT, yT, dayFmt dT, monthFmt mT, yearFmt (digitsVal yT), digitsVal dT, digitsVal mT,
       yearOf (digitsVal yT), hsep, rfl, fieldOk_digits hsep hy, fieldOk_digits hsep hm, fieldOk_digits hsep hd,
-      Or.inl ⟨by rw [utf8Len_digits hy, hyl], rfl, rfl, rfl, hm, hd, rfl⟩,
+      Or.inl ⟨by simp [isoYear, utf8Len_digits hy, hyl, hy], rfl, rfl, rfl, hm, hd, rfl⟩,
       parseDay_digits hd hdl, parseMonth_digits ℓ hm hml, parseYear_digits hy (Or.inr hyl), hser, h1, h2⟩
   · exact dateEdgeOk_fields hc hy hyne hd (len_ne_nil hdl)
 
@@ -199,26 +199,27 @@ theorem recognise_complete_date_locale (ℓ : Locale) (curs : List (List Char)) 
     apply recognise_complete_date ℓ curs hc
     · refine ⟨sep, mT, dT, yT, dT, mT, yT, dayFmt dT, monthFmt mT, yearFmt (digitsVal yT), digitsVal dT, digitsVal mT,
         yearOf (digitsVal yT), hsep, rfl, fieldOk_digits hsep hm, fieldOk_digits hsep hd, fieldOk_digits hsep hy,
-        Or.inr (Or.inr ⟨by rw [utf8Len_digits hm]; omega, hdf, rfl, rfl, rfl, rfl⟩),
+        Or.inr (Or.inr ⟨by simp only [isoYear, utf8Len_digits hm, Bool.and_eq_false_iff, beq_eq_false_iff_ne]; left; omega, hdf, rfl, rfl, rfl, rfl⟩),
         parseDay_digits hd hdl, parseMonth_digits ℓ hm hml, parseYear_digits hy hyl, hser, h1, h2⟩
     · exact dateEdgeOk_fields hc hm (len_ne_nil hml) hy hyne
   · simp only [if_true]
     apply recognise_complete_date ℓ curs hc
     · refine ⟨sep, dT, mT, yT, dT, mT, yT, dayFmt dT, monthFmt mT, yearFmt (digitsVal yT), digitsVal dT, digitsVal mT,
         yearOf (digitsVal yT), hsep, rfl, fieldOk_digits hsep hd, fieldOk_digits hsep hm, fieldOk_digits hsep hy,
-        Or.inr (Or.inl ⟨by rw [utf8Len_digits hd]; omega, hdf, rfl, rfl, rfl, rfl⟩),
+        Or.inr (Or.inl ⟨by simp only [isoYear, utf8Len_digits hd, Bool.and_eq_false_iff, beq_eq_false_iff_ne]; left; omega, hdf, rfl, rfl, rfl, rfl⟩),
         parseDay_digits hd hdl, parseMonth_digits ℓ hm hml, parseYear_digits hy hyl, hser, h1, h2⟩
     · exact dateEdgeOk_fields hc hd (len_ne_nil hdl) hy hyne
 
 /-- **month names** (regenerated table, all 6 locales × 24 names): every short and long month name
     is read by `parse_month` as its month; is free of `/` and `-` (so it can be a field with these
-    separators; with `.` only when it has no `.`: the French short names `janv.` … do); and starts
+    separators; with `.` only when it has no `.`: the French short names `janv.` … do); is never taken
+    for an ISO year (fix F19f); and starts
     with a character that is not white space, `-`, or the first character of a currency symbol -/
 theorem month_names_table :
     IronCalc.Generated.C19.locales.all (fun p =>
       (List.range 12).all fun i =>
         [p.2.monthsShort.getD i [], p.2.months.getD i []].all fun nm =>
-          ((parseMonth p.2 nm).map (·.1) == some (i + 1)) && fieldOk '/' nm && fieldOk '-' nm &&
+          ((parseMonth p.2 nm).map (·.1) == some (i + 1)) && fieldOk '/' nm && fieldOk '-' nm && !isoYear nm &&
           (match nm.head? with
            | some h => !isWs h && h != '-' && (currencies p.2).all (fun c => c.head? != some h)
            | none => false)) = true := by
@@ -294,6 +295,31 @@ theorem format_kind_percent (ℓ : Locale) (curs : List (List Char)) (s p : List
     simp only [Option.some.injEq, Prod.mk.injEq] at h
     exact ⟨n, h.1.symm, h.2.symm⟩
 
+/-- **format kinds, currency before**: a `symbol#,##0[.00]` format is attached only to a text that,
+    trimmed, is `symbol rest` or `-symbol rest` with `symbol` in the currency list and `rest`
+    (trimmed) a number without exponent; the value is that number (negated in the second case),
+    not divided by 100; the format has decimals exactly when a decimal separator was typed
+    (no strictness needed) -/
+theorem format_kind_currency_prefix (ℓ : Locale) (curs : List (List Char)) (s c : List Char) (v : Value) (d : Bool)
+    (h : parseFormattedNumber ℓ curs s = some (v, .currencyPrefix c d)) :
+    c ∈ curs ∧ ∃ n negated p, v = .num n negated false ∧ d = n.hasDot ∧ n.isSci = false ∧
+      stripPrefix (if negated then '-' :: c else c) (trim s) = some p ∧
+      parseNumber ℓ.dec ℓ.grp (trim p) = some n := by
+  obtain ⟨cur, hm, hstep⟩ := currency_kind_from_loop h (Or.inl ⟨c, d, rfl⟩)
+  obtain ⟨hc, hrest⟩ := currencyStep_prefix_kind hstep
+  subst hc
+  exact ⟨hm, hrest⟩
+
+/-- **format kinds, currency after**: a `#,##0[.00]symbol` format is attached only to `rest symbol` -/
+theorem format_kind_currency_suffix (ℓ : Locale) (curs : List (List Char)) (s c : List Char) (v : Value) (d : Bool)
+    (h : parseFormattedNumber ℓ curs s = some (v, .currencySuffix c d)) :
+    c ∈ curs ∧ ∃ n p, v = .num n false false ∧ d = n.hasDot ∧ n.isSci = false ∧
+      stripSuffix c (trim s) = some p ∧ parseNumber ℓ.dec ℓ.grp (trim p) = some n := by
+  obtain ⟨cur, hm, hstep⟩ := currency_kind_from_loop h (Or.inr ⟨c, d, rfl⟩)
+  obtain ⟨hc, hrest⟩ := currencyStep_suffix_kind hstep
+  subst hc
+  exact ⟨hm, hrest⟩
+
 /-- a recognised date is a date serial in the supported range with a date format -/
 theorem format_kind_date (ℓ : Locale) (curs : List (List Char)) (s : List Char) (serial : Nat) (k : Kind)
     (h : parseFormattedNumber ℓ curs s = some (.serial serial, k)) :
@@ -315,12 +341,12 @@ theorem recognised_is_finite (dec grp : Char) (t : List Char) (n : Num) (h : par
       exact hok.2
     · cases h
 
-/-- defect F19f (known finding, found by the oracle): in a month-first locale a four-byte month name
-    in first position is taken for an ISO year: `July-20-2020` is not a date while `March-20-2020` is -/
+/-- defect F19f repaired: in a month-first locale a four-byte month name in first position is no
+    longer taken for an ISO year: `July-20-2020` is a date like `March-20-2020` -/
 theorem F19f_four_byte_month_name_first :
     (IronCalc.Generated.C19.locales.lookup "en").map
       (fun l => ((parseDate l "July-20-2020".toList).isSome, (parseDate l "March-20-2020".toList).isSome))
-    = some (false, true) := by decide +kernel
+    = some (true, true) := by decide +kernel
 
 /-! ### non-vacuity and the decided witnesses -/
 
@@ -350,6 +376,28 @@ example : (do
           (parseFormattedNumber l (currencies l) "1/1/+1".toList).isNone,
           (parseFormattedNumber l (currencies l) "0100-01-01".toList).isNone)) = some (true, true, true, true) := by
   decide
+
+/-- the hypotheses of the currency completeness theorems are met: `1,234.5` is a well-formed
+    number of `en` (groups, fraction), and the recogniser does store `- $ 1,234.5 ` as −1234.5 -/
+example : WellFormed ',' ⟨none, "1,234".toList, true, "5".toList, none⟩ :=
+  { sign := Or.inl rfl
+    int := ⟨['1'], ",234".toList, rfl, by unfold AllDigits; decide,
+      Groups.cons (by decide) (by decide) (by decide) Groups.nil, fun _ => by simp⟩
+    frac := by unfold AllDigits; decide
+    noDot := by intro h; cases h
+    mant := by decide
+    exp := trivial
+    finite := by decide }
+
+example : (do
+    let l ← IronCalc.Generated.C19.locales.lookup "en"
+    let r ← parseFormattedNumber l (currencies l) " -$ 1,234.5 ".toList
+    pure (r.1.isNegative, r.2 == .currencyPrefix ['$'] true)) = some (true, true) := by decide
+
+/-- the hypotheses of `recognise_complete_date_locale` are met (de, `29.02.24`): an existing date,
+    two-digit year read as 2024, serial 45351 in range -/
+example : IronCalc.Dates.toSerial ⟨yearOf (digitsVal "24".toList), digitsVal "02".toList, digitsVal "29".toList⟩
+    = some 45351 := by decide +kernel
 
 /-- a leap day typed in ISO layout is the serial C21 gives it -/
 example : (do
